@@ -35,7 +35,9 @@ func history(r drv.Rand, idx int) *h.World {
 	}
 	for i, n := 0, 4+r.IntN(7); i < n; i++ {
 		rt := w.Router(fixed, mixed)
-		switch k := r.IntN(20); {
+		switch k := r.IntN(22); {
+		case k >= 20:
+			w.RSIntrospection(rt)
 		case k < 4:
 			t := w.Present("opaque-at", "jwt-at", "opaque-at", "jwt-at", "idtok", "rt")
 			w.Tags["use="+t.Kind] = true
